@@ -108,7 +108,17 @@ def rule_mask(ctx):
         fid = kwarg(n, 'function_id')
         fun = kwarg(n, 'function')
         inp, outp = kwarg(n, 'inputs'), kwarg(n, 'outputs')
-        if not (isinstance(fid, ast.Constant) and fun is not None):
+        if fid is None or fun is None:
+            continue
+        # the id and the function may be computed (`'%s2DEC' % 'HEX'`,
+        # `_with_base(_x2dec, 8)`): fold them with the partial evaluator
+        from ..peval import FuncV as _FV, CallV as _CV, Ext as _Ext
+        menv = ctx.ev.module_env(fac.module)
+        if not isinstance(fid, ast.Constant):
+            fv = ctx.ev.eval(fac.module, fid, menv)
+            if is_const(fv, str):
+                fid = ast.copy_location(ast.Constant(value=fv.v), fid)
+        if not isinstance(fid, ast.Constant):
             continue
         edges += 1
         rr.instances += 1
@@ -125,6 +135,17 @@ def rule_mask(ctx):
             bk = kwarg(fun, 'base')
             base = bk.value if isinstance(bk, ast.Constant) else defaults.get(
                 fname)
+        else:
+            av = ctx.ev.eval(fac.module, fun, menv)
+            if isinstance(av, _FV):
+                fname = av.fi.name
+                base = defaults.get(fname)
+            elif isinstance(av, _CV) and isinstance(av.fn, _Ext) and \
+                    av.fn.name == 'functools.partial' and av.args and \
+                    isinstance(av.args[0], _FV):
+                fname = av.args[0].fi.name
+                bk = av.kw.get('base')
+                base = bk.v if is_const(bk) else defaults.get(fname)
         want_fn = '_x2dec' if b == 'DEC' else '_dec2x'
         ins = [e.value for e in inp.elts] if isinstance(inp, ast.List) else []
         outs = [e.value for e in outp.elts] if isinstance(outp, ast.List) else []
